@@ -1256,6 +1256,92 @@ def case_dense(ctx, case):
     ctx.oracle(ok_dtype, f'counts=True: grid dtype {grid.dtype} cannot hold the largest per-voxel count {top}', case)
 
 
+def gen_dphist(r):
+    """History on ONE Dotprops object: make_dotprops(A, k) → touch the KD-tree → `dp.points = B` (same shape) → tangents again."""
+    n = r.randint(4, 14)
+    sc = r.choice([Fr(1), Fr(1, 2), Fr(1, 4), Fr(2)])
+
+    def cloud():
+        sh = [Fr(r.randint(-20, 20), 2) for _ in range(3)]
+        return [[sh[a] + sc * Fr(r.randint(-64, 64), r.choice([1, 2, 4])) for a in range(3)] for _ in range(n)]
+    A = cloud()
+    kindB = r.choice(['fresh', 'fresh', 'permuted', 'stretched'])
+    if kindB == 'permuted':
+        B = list(A); r.shuffle(B)
+        if B == A:
+            B = B[1:] + B[:1]
+    elif kindB == 'stretched':                       # same points, one axis stretched: neighbourhoods and axes change
+        f = r.choice([Fr(8), Fr(1, 8)]); ax = r.randrange(3)
+        B = [[c * (f if a == ax else 1) for a, c in enumerate(p)] for p in A]
+    else:
+        B = cloud()
+    return {'A': [[tok(c) for c in p] for p in A], 'B': [[tok(c) for c in p] for p in B], 'kindB': kindB,
+            'k': r.choice([2, 3, 4, 5, n]), 'touch': r.choice(['sampling_resolution', 'snap', 'recalculate_tangents', 'kdtree', 'none']),
+            'path': r.choice(['recalc_inplace', 'recalc_inplace', 'recalc_copy', 'lazy_vect', 'lazy_alpha']),
+            'units': r.choice([None, '8 nm'])}
+
+
+def case_dphist(ctx, case):
+    A = [[fr(c) for c in p] for p in case['A']]
+    B = [[fr(c) for c in p] for p in case['B']]
+    fa = np.array([[float(c) for c in p] for p in A], dtype=float)
+    fb = np.array([[float(c) for c in p] for p in B], dtype=float)
+    k = int(case['k'])
+    ctx.count('dphist_touch', case['touch']); ctx.count('dphist_path', case['path']); ctx.count('dphist_B', case['kindB'])
+    try:
+        dp = navis.make_dotprops(fa, k=k)
+        if case.get('units'):
+            dp.units = case['units']
+        t = case['touch']
+        if t == 'sampling_resolution':
+            _ = dp.sampling_resolution
+        elif t == 'snap':
+            _ = dp.snap(fa[0])
+        elif t == 'recalculate_tangents':
+            dp.recalculate_tangents(min(k, len(A)), inplace=True)
+        elif t == 'kdtree':
+            _ = dp.kdtree
+        dp.points = fb                                   # same shape as before (what align / transforms do with `n.points = new_co`)
+        kk = min(k, len(B))
+        pth = case['path']
+        if pth == 'recalc_inplace':
+            dp.recalculate_tangents(kk, inplace=True); res = dp
+        elif pth == 'recalc_copy':
+            res = dp.recalculate_tangents(kk, inplace=False)
+        else:
+            dp._vect = None; dp._alpha = None            # lazy re-computation through the properties
+            if pth == 'lazy_vect':
+                _ = dp.vect
+            else:
+                _ = dp.alpha
+            res = dp
+        vect = np.asarray(res.vect, dtype=float); alpha = np.asarray(res.alpha, dtype=float)
+        P = np.asarray(res.points, dtype=float)
+        fresh = navis.make_dotprops(fb, k=k)
+        sr, sr_fresh = float(dp.sampling_resolution), float(fresh.sampling_resolution)
+        snap_ix, snap_d = dp.snap(fb[-1])
+    except Exception as e:
+        ctx.oracle(False, f'Dotprops history (make_dotprops → {case["touch"]} → points = B → {case["path"]}) raises {type(e).__name__}: {str(e)[:120]}', case)
+        return
+    what = f'make_dotprops(A, k={k}) → {case["touch"]} → dp.points = B → {case["path"]}'
+    ctx.oracle(np.array_equal(P, fb), f'{what}: the object does not hold the points B', case)
+    if len(vect) != len(B) or len(alpha) != len(B):
+        ctx.oracle(False, f'{what}: {len(vect)} tangents / {len(alpha)} alphas for {len(B)} points', case)
+        return
+    # the property on (B, tangents, alpha): Lean judge against the exact k nearest neighbours *of B*
+    lean_judge(ctx, case, B, k, int(res.k), vect, alpha, what)
+    # and agreement (up to sign) with a fresh make_dotprops(B, k) wherever the leading eigenvalue is simple
+    fv, fal = np.asarray(fresh.vect, dtype=float), np.asarray(fresh.alpha, dtype=float)
+    simple = fal > 1e-6
+    dots = np.abs(np.einsum('ij,ij->i', vect, fv))
+    ctx.oracle(bool(np.all(np.abs(alpha - fal) <= 1e-9)) and bool(np.all(dots[simple] >= 1 - 1e-9)),
+               f'{what}: tangents / alpha differ from a fresh make_dotprops(B, k={k}) (max |Δalpha| {float(np.abs(alpha - fal).max()):.3g}, '
+               f'min |cos| {float(dots[simple].min()) if simple.any() else 1.0:.6f}): the KD-tree searched is not a tree of the current points', case)
+    # (not a clause of the statement, hence a correspondence check: the other consumers of the cached tree)
+    ctx.corr(bool(abs(sr - sr_fresh) <= 1e-12 * (1 + abs(sr_fresh)) and float(snap_d) == 0.0 and np.array_equal(fb[int(snap_ix)], fb[-1])), True,
+               f'{what}: sampling_resolution {sr} (fresh {sr_fresh}) / snap(B[-1]) → index {snap_ix}, distance {snap_d}: queries do not see the current points', case)
+
+
 def gen_skel(r):
     kind = r.choice(['tube', 'tube', 'cylinder', 'capsule', 'box', 'two'])
     if kind == 'tube':
@@ -1303,6 +1389,8 @@ def gen_cases(ctx):
         yield 'voxdots', gen_voxdots(r)
     for _ in range(ctx.budget(10, 120)):
         yield 'dense', gen_dense(r)
+    for _ in range(ctx.budget(60, 1200)):
+        yield 'dphist', gen_dphist(r)
     if HAVE_SKIMAGE:
         for _ in range(ctx.budget(100, 1500)):
             yield 'vmesh', gen_vmesh(r)
@@ -1312,7 +1400,7 @@ def gen_cases(ctx):
 
 
 RUNNERS = {'round': case_round, 'vox': case_vox, 'tan': case_tan, 'dots': case_dots, 'tube': case_tube, 'vmesh': case_vmesh,
-           'skel': case_skel, 'nlist': case_nlist, 'voxdots': case_voxdots, 'dense': case_dense}
+           'skel': case_skel, 'nlist': case_nlist, 'voxdots': case_voxdots, 'dense': case_dense, 'dphist': case_dphist}
 
 
 def nontrivial(kind, case):
